@@ -20,7 +20,7 @@ Fixpoint norm (v : jv) (p : path) : option (list path) :=
   | PS s e :: r =>
       match v with
       | JArr l =>
-          let '(st, en) := slice_bounds s e (zlen l) in
+          let '(st, en) := slice_bounds_read s e (zlen l) in
           match r with
           | [] => Some (map (fun i => [PI i]) (zrange st (Z.to_nat (en - st))))
           | _ => option_map (map (shift st)) (norm (JArr (sub l st en)) r)
